@@ -57,7 +57,26 @@ def same_lens(ctx, tk):
     fors = [n for n in fa.cfg.nodes if n.kind == "for" and fa.cfg.is_reachable(n)]
     what = "the equal-length check walks every field and refuses on the first length that differs from the common one"
     if not fors:
-        ctx.violated("C18.b", f, what, "no loop over the fields", engine="E1")
+        # aggregate form: one refusal whose condition ranges over all fields (any(...)/all(...) over a comprehension)
+        from ..guards import refusals as _refusals
+        refs = _refusals(fa)
+        if not refs:
+            ctx.violated("C18.b", f, what, "neither a loop over the fields nor any refusal", engine="E1")
+            return
+        rec = False
+        for tn, _truth in refs:
+            t = fa.term(tn.ast, tn)
+            comps = [c for c in walk(t) if c.k == "comp"]
+            over_all = any(any(x.k == "call" and (call_name(x) or "").split(".")[-1] == "shallow_tuple" for x in walk(c.a[2][0])) and not c.a[3] for c in comps)
+            cmps = [x for c in comps for x in walk(c.a[1]) if x.k == "cmp" and x.a[0] in ("==", "!=")] + [x for x in walk(t) if x.k == "cmp" and x.a[0] in ("==", "!=")]
+            if over_all and cmps:
+                rec = True
+                okb = fa.cfg.must_pass([tn], fa.cfg.exit)
+                ctx.decide("C18.b", f, "the check cannot be bypassed (every normal return comes after the comparison of all fields)", True if okb else False,
+                           "an early return skips the comparison", key="no-bypass", engine="E1")
+                ctx.holds("C18.b", f, "the comparison ranges over all fields (shallow_tuple(self))", node=tn.ast, key="domain", engine="E6")
+        if not rec:
+            ctx.unknown("C18.b", f, what, "the refusal is not a loop and its domain was not recognised", engine="E1")
         return
     fn = fors[0]
     # no way to the normal exit around the loop
@@ -169,7 +188,7 @@ def concat_eq(ctx, tk):
         ok = it.k == "call" and call_name(it) == "zip" and len(it.a[1]) == 2 and all((call_name(x) or "").endswith("shallow_tuple") for x in it.a[1])
         ctx.decide("C18.c", g, "== walks every pair of corresponding fields", True if ok else None, node=fn.ast, key="eq-domain", engine="E6")
     # field shapes are compared before the element-wise comparison (broadcasting would hide a shape difference)
-    eqs = [n for n, c in find_calls(ga, lambda c: np_call(c, {"equal", "array_equal"}))]
+    eqs = [(n, c) for n, c in find_calls(ga, lambda c: np_call(c, {"equal", "array_equal"}))]
     from ..guards import aggregate_only
 
     def msh(t):
